@@ -221,16 +221,14 @@ func Compose(dst, src Sliceable, fs feat.Set) error {
 		if f, ok := ff[i].(feat.Orienter); ok && f.Orientation() == feat.Reverse {
 			switch src := src.(type) {
 			case SliceReverser:
-				if r == nil {
-					r = src.New().(SliceReverser)
-					if _, ok := src.Alphabet().(alphabet.Complementor); ok {
-						r.SetAlphabet(src.Alphabet())
-						r.SetSlice(ts)
-						r.RevComp()
-					} else {
-						r.SetSlice(ts)
-						r.Reverse()
-					}
+				r = src.New().(SliceReverser)
+				if _, ok := src.Alphabet().(alphabet.Complementor); ok {
+					r.SetAlphabet(src.Alphabet())
+					r.SetSlice(ts)
+					r.RevComp()
+				} else {
+					r.SetSlice(ts)
+					r.Reverse()
 				}
 			default:
 				return errors.New("sequtils: unable to reverse segment during compose")
